@@ -127,7 +127,8 @@ func (p *TransportLayerNack) Unmarshal(rawPacket []byte) error {
 		return err
 	}
 
-	if len(rawPacket) < (headerLength + int(4*h.Length)) {
+	length := 4 * int(h.Length)
+	if len(rawPacket) < (headerLength + length) {
 		return errPacketTooShort
 	}
 
@@ -136,13 +137,13 @@ func (p *TransportLayerNack) Unmarshal(rawPacket []byte) error {
 	}
 
 	// The FCI field MUST contain at least one and MAY contain more than one Generic NACK
-	if 4*h.Length <= nackOffset {
+	if length <= nackOffset {
 		return errBadLength
 	}
 
 	p.SenderSSRC = binary.BigEndian.Uint32(rawPacket[headerLength:])
 	p.MediaSSRC = binary.BigEndian.Uint32(rawPacket[headerLength+ssrcLength:])
-	for i := headerLength + nackOffset; i < (headerLength + int(h.Length*4)); i += 4 {
+	for i := headerLength + nackOffset; i < (headerLength + length); i += 4 {
 		p.Nacks = append(p.Nacks, NackPair{
 			binary.BigEndian.Uint16(rawPacket[i:]),
 			PacketBitmap(binary.BigEndian.Uint16(rawPacket[i+2:])),
